@@ -220,6 +220,13 @@ def targeted():
         ("while-unbraced-use-after", f([While(c, Decl("int", "t", I(5))), ES(A(V("p0"), V("t")))])),
         ("for-unbraced-use-after", f([For(Decl("int", "i", I(0)), B("<", V("i"), I(2)), Pre("++", "i"), Decl("int", "t", I(5))), ES(A(V("p0"), V("t")))])),
         ("nested-shadow", f([Decl("int", "x"), Block([If(c, Block([Decl("int", "x")]))])])),
+        # ladders: a branch that is itself an if (else if ...; an unbraced nested if) still sees every enclosing name
+        ("else-if-redeclares-local", f([Decl("int", "x", I(1)), If(c, Block([ES(A(V("x"), I(2)))]), If(B(">", V("p0"), I(7)), Block([Decl("int", "x", I(3))]), Block([ES(A(V("x"), I(4)))])))])),
+        ("else-if-else-redeclares-param", f([If(c, Block([]), If(B(">", V("p0"), I(7)), Block([]), Block([Decl("int", "p0", I(3))])))])),
+        ("else-if-redeclares-global", f([If(c, Block([]), If(B(">", V("p0"), I(7)), Decl("int", "g0", I(3))))])),
+        ("else-if-third-link", f([Decl("int", "x", I(1)), If(c, Block([]), If(B(">", V("p0"), I(7)), Block([]), If(B(">", V("p0"), I(9)), Block([Decl("int", "x", I(5))]))))])),
+        ("nested-unbraced-if-redeclares", f([Decl("int", "x", I(1)), If(c, If(B(">", V("p0"), I(1)), Decl("int", "x", I(9))))])),
+        ("else-if-fresh-names-ok", f([Decl("int", "x", I(1)), If(c, Block([Decl("int", "y", I(2))]), If(B(">", V("p0"), I(7)), Block([Decl("int", "y", I(3))]), Block([Decl("int", "z", I(4))])))])),
     ]
 
 
